@@ -378,7 +378,21 @@ def load_fragile():
             _FRAGILE = json.load(open(p))
         except (OSError, ValueError):
             _FRAGILE = {}
+        if _FRAGILE.get('_contracts_sha') != contracts_sha():
+            _FRAGILE = {}   # stale table: nothing is known to be hint-independent (every such failure is undecided)
     return _FRAGILE
+
+
+def contracts_sha():
+    """Fingerprint of everything the table of hint-dependent clauses depends on."""
+    import glob
+    import hashlib
+    h = hashlib.sha256()
+    for f in sorted(glob.glob(os.path.join(VERIF, 'contracts', 'units', '*.py')) + glob.glob(os.path.join(VERIF, 'contracts', 'prelude', '*.rs'))
+                    + [os.path.join(VERIF, 'tools', 'weave.py'), os.path.join(VERIF, 'tools', 'stubjust.py')]):
+        h.update(os.path.basename(f).encode())
+        h.update(open(f, 'rb').read())
+    return h.hexdigest()
 
 
 def classify(unit, res):
@@ -440,7 +454,17 @@ def classify(unit, res):
         if prim_line is not None:
             a = max(0, prim_line - 2)
             excerpt = '\n'.join(gen_lines[a:prim_line + 3])
-        f = {'message': msg, 'fn': fnv[2].name() if fnv else None, 'labels': labels,
+        hint_failed = False
+        assert_text = None
+        if 'KV-HINT' in labels:
+            # an `assert` inside an anchored proof hint failed: the hint no longer fits the code (see check.run_unit)
+            hint_failed = labels == ['KV-HINT'] and 'assertion failed' in msg
+            for sp in spans:
+                if sp.get('is_primary') and sp.get('text'):
+                    t0 = sp['text'][0]
+                    assert_text = ' '.join(' '.join(x['text'] for x in sp['text']).split()) if len(sp['text']) > 1 else t0['text'][t0['highlight_start'] - 1:t0['highlight_end'] - 1]
+            labels = [l for l in labels if l != 'KV-HINT']
+        f = {'message': msg, 'fn': fnv[2].name() if fnv else None, 'labels': labels, 'hint_failed': hint_failed, 'assert_text': assert_text,
              'props': sorted(props), 'line': (prim_line + 1) if prim_line is not None else None,
              'excerpt': excerpt, 'rendered': d.get('rendered', ''), 'probe': is_probe}
         if fnv is None and not labels:
